@@ -115,4 +115,48 @@ theorem printSchema_rel (o : Opts) (s : SchemaD) (apps : Apps) (h : appsLexOK (o
   unfold SdlPrintTA.printSchemaTA
   simp only [← hparts, List.isEmpty_map, T_ite, T_append, T_intercalate, c1, c3, T_nil]
 
+/-! ### `include_introspection` -/
+
+/-- the hypothesis for all four options: also the applications attached to the library's own definitions (none, in practice) -/
+def appsLexOKX (c : SdlPrintTA.OptsA) (intro : Bool) (b : SdlPrint.Builtins) (s : SchemaD) (apps : Apps) : Bool :=
+  SdlPrintTA.appsOKAt c apps "" && (s.types ++ (if intro then b.introspection else [])).all (SdlPrintTA.typeAppsOK c apps) &&
+  s.directives.all (SdlPrintTA.directiveAppsOK c apps) && (if intro then b.specified else []).all (SdlPrintTA.directiveAppsOK c apps)
+
+theorem printSchemaX_rel (o : Opts) (intro : Bool) (b : SdlPrint.Builtins) (s : SchemaD) (apps : Apps)
+    (h : appsLexOKX (optsA o) intro b s apps = true) :
+    Rel (SdlPrint.printSchemaX o intro b s apps st0) (SdlPrintTA.printSchemaXTA (optsA o) intro b s apps) := by
+  simp only [appsLexOKX, Bool.and_eq_true, List.all_eq_true] at h
+  obtain ⟨⟨⟨h0, ht⟩, hd⟩, hsp⟩ := h
+  have hsd := printSchemaDefinition_rel s o apps h0
+  have hsps := mapSt_rel (fun _ d st => SdlPrint.printDirectiveDefinition s o apps d st)
+    (fun _ d => SdlPrintTA.printDirectiveDefinition s (optsA o) apps d) (if intro then b.specified else []) 0
+    (fun _ x hx => printDirectiveDefinition_rel s o apps x (hsp x hx))
+  have hds := mapSt_rel (fun _ d st => SdlPrint.printDirectiveDefinition s o apps d st)
+    (fun _ d => SdlPrintTA.printDirectiveDefinition s (optsA o) apps d) (SdlPrint.sortBy (·.name) s.directives) 0
+    (fun _ x hx => printDirectiveDefinition_rel s o apps x (hd x ((sortBy_perm _ _).mem_iff.mp hx)))
+  have hts := mapSt_rel (fun _ t st => SdlPrint.printType s o apps t st)
+    (fun _ t => SdlPrintTA.printType s (optsA o) apps t)
+    (SdlPrint.sortBy (·.name) (s.types ++ (if intro then b.introspection else []))) 0
+    (fun _ x hx => printType_rel s o apps x (ht x ((sortBy_perm _ _).mem_iff.mp hx)))
+  rw [imap_const] at hsps hds hts
+  have c1 : T "\n\n" = [10, 10] := by decide
+  have c3 : T "\n" = [10] := by decide
+  unfold Rel
+  simp only [SdlPrint.printSchemaX, hsd.1, hsps.1, hds.1]
+  refine ⟨hts.1, ?_⟩
+  have hparts : (((((SdlPrint.printSchemaDefinition s o apps st0).1 ::
+        (SdlPrint.mapSt (fun _ d st => SdlPrint.printDirectiveDefinition s o apps d st) 0 (if intro then b.specified else []) st0).1) ++
+        (SdlPrint.mapSt (fun _ d st => SdlPrint.printDirectiveDefinition s o apps d st) 0 (SdlPrint.sortBy (·.name) s.directives) st0).1) ++
+        (SdlPrint.mapSt (fun _ t st => SdlPrint.printType s o apps t st) 0
+          (SdlPrint.sortBy (·.name) (s.types ++ (if intro then b.introspection else []))) st0).1).filter
+          (fun x => !x.isEmpty)).map T =
+      ((SdlPrintTA.printSchemaDefinition s (optsA o) apps ::
+        (if intro then b.specified else []).map (SdlPrintTA.printDirectiveDefinition s (optsA o) apps)) ++
+        (SdlPrint.sortBy (·.name) s.directives).map (SdlPrintTA.printDirectiveDefinition s (optsA o) apps) ++
+        (SdlPrint.sortBy (·.name) (s.types ++ (if intro then b.introspection else []))).map
+          (SdlPrintTA.printType s (optsA o) apps)).filter (fun p => !p.isEmpty) := by
+    rw [filter_nonempty_T, List.map_append, List.map_append, List.map_cons, hsd.2, hsps.2, hds.2, hts.2]
+  unfold SdlPrintTA.printSchemaXTA
+  simp only [← hparts, List.isEmpty_map, T_ite, T_append, T_intercalate, c1, c3, T_nil]
+
 end PyGql.SdlModels
